@@ -27,12 +27,21 @@ type hv struct {
 func (h *hv) Hashcode() interface{} { return fmt.Sprintf("h%03d", h.Code) }
 func (h *hv) String() string        { return fmt.Sprintf("hv(%d#%d)", h.Code, h.Gen) }
 
+// sv is a vertex of a type that is not comparable in Go (a slice); it takes its
+// identity from its hash code alone ("a vertex can be anything").
+type sv []int
+
+func (s sv) Hashcode() interface{} { return fmt.Sprintf("h%03d", s[0]) }
+func (s sv) String() string        { return fmt.Sprintf("sv(%d#%d)", s[0], s[1]) }
+
 func vertexOf(kind, i, gen int) graphx.Vertex {
 	switch kind {
 	case 1:
 		return fmt.Sprintf("s%03d", i)
 	case 2:
 		return &hv{Code: i, Gen: gen}
+	case 3:
+		return sv{i, gen}
 	}
 	return i
 }
@@ -54,18 +63,30 @@ func idOf(v interface{}) int {
 		}
 	case *hv:
 		return x.Code
+	case sv:
+		return x[0]
 	}
 	return -1
 }
 
-func genGraph(r *simrt.RNG, maxN int, dag bool, maxW int) GraphSpec {
+func genGraph(r *simrt.RNG, maxN int, dag bool, maxW int, allowSlice bool) GraphSpec {
 	n := 1 + r.Intn(maxN)
+	// now and then legal but very large weights: up to 2^29 on graphs of <= 4
+	// vertices, so that every path sum stays below 2^31
+	huge := maxW >= 20 && r.Chance(1, 10)
+	if huge && n > 4 {
+		n = 2 + r.Intn(3)
+	}
 	g := GraphSpec{N: n}
-	kindMode := r.Intn(4) // 0 all int, 1 all string, 2 all hashable, 3 mixed
+	kindMode := r.Intn(4)                      // 0 all int, 1 all string, 2 all hashable, 3 mixed
+	sliceVerts := allowSlice && r.Chance(1, 6) // hashable vertices of a non-comparable Go type
 	for i := 0; i < n; i++ {
 		k := kindMode
 		if kindMode == 3 {
 			k = r.Intn(3)
+		}
+		if sliceVerts && k == 2 {
+			k = 3
 		}
 		g.Kinds = append(g.Kinds, k)
 	}
@@ -94,6 +115,9 @@ func genGraph(r *simrt.RNG, maxN int, dag bool, maxW int) GraphSpec {
 				if r.Chance(1, 2) {
 					w = r.Intn(maxW + 1)
 				}
+			}
+			if huge && r.Chance(2, 3) {
+				w = 1<<28 + r.Intn(1<<28)
 			}
 			g.Edges = append(g.Edges, [3]int{i, j, w})
 		}
